@@ -75,6 +75,16 @@ Theorem C01_nonvacuous :
   (wf_replay ex_r10 = true /\ res_is_ok (game_start (r_start ex_r10)) = true /\ finished ex_r10 = true).
 Proof. exact (conj ex_r37_wf (conj ex_r25_wf ex_r10_wf)). Qed.
 
+From Peppi Require Proofs.ReaderTies Proofs.WriterTies.
+(* the reader model these theorems speak about is the one regenerated from the source on this run: one-shot read, every incremental
+   entry point, the event dispatch with the splitter, the Game Start wiring, the metadata reader (Proofs/ReaderTies.v reader_tied) *)
+Theorem C01_reader_is_the_source : ReaderTies.reader_tied.
+Proof. exact ReaderTies.reader_tied_holds. Qed.
+(* the writer model these theorems speak about is the one regenerated from the source on this run: the statement sequence of write(),
+   the payload-size table, the frame counts, the frame writer, the gecko blocks, the metadata writer (Proofs/WriterTies.v writer_tied) *)
+Theorem C01_writer_is_the_source : WriterTies.writer_tied.
+Proof. exact WriterTies.writer_tied_holds. Qed.
+
 Print Assumptions C01_read.
 Print Assumptions C01_write.
 Print Assumptions C01_roundtrip.
@@ -86,3 +96,5 @@ Print Assumptions C01_nonvacuous.
 Print Assumptions C01_frame_write_from_source.
 Print Assumptions C01_gecko_blocks_from_source.
 Print Assumptions C01_writer_from_source.
+Print Assumptions C01_reader_is_the_source.
+Print Assumptions C01_writer_is_the_source.
